@@ -201,7 +201,11 @@ class FPCase(object):
             kw['covariates'] = self.cov_arg
         self.post = chi.PopulationFilterLogPosterior(
             flt, self.times.copy(), model, pm, prior,
-            sigma=None if self.sigma_free else list(self.sigma_fixed_vals),
+            sigma=None if self.sigma_free else (
+                # (one output: the standard deviation may be a plain number)
+                float(self.sigma_fixed_vals[0])
+                if (self.n_out == 1 and self.n_s % 2 == 0)
+                else list(self.sigma_fixed_vals)),
             error_on_log_scale=self.log_scale, n_samples=self.n_s, **kw)
         return self.post
 
